@@ -495,7 +495,21 @@ impl Server for Gs2Server {
         self.attempts += 1;
         match self.outcomes.get(n).copied().unwrap_or(Outcome::Valid) {
             Outcome::Silent => {}
-            Outcome::Malformed => cx.udp_send(from, vec![0x05, id[0], id[1]]),
+            Outcome::Malformed => {
+                match cx.draw(3) {
+                    0 => cx.udp_send(from, vec![0x05, id[0], id[1]]),
+                    1 => {
+                        // the complete valid reply with another request id
+                        let d = self.st.encode([id[0], id[1], id[2], id[3] ^ 0x44]);
+                        cx.udp_send(from, d);
+                    }
+                    _ => {
+                        let mut d = self.st.encode(id);
+                        d[0] = 9;
+                        cx.udp_send(from, d);
+                    }
+                }
+            }
             Outcome::Valid => {
                 let d = self.st.encode(id);
                 cx.udp_send(from, d);
@@ -831,7 +845,24 @@ impl Server for Gs3Server {
                 self.handshakes += 1;
                 match self.hs_outcomes.get(n).copied().unwrap_or(Outcome::Valid) {
                     Outcome::Silent => {}
-                    Outcome::Malformed => cx.udp_send(from, vec![9, session[0]]),
+                    Outcome::Malformed => {
+                        // truncated, or complete but for another session, or of the wrong kind
+                        let mut d = vec![9];
+                        match cx.draw(3) {
+                            0 => d.push(session[0]),
+                            v => {
+                                if v == 1 {
+                                    d.extend_from_slice(&[session[0], session[1], session[2], session[3] ^ 0x5a]);
+                                } else {
+                                    d[0] = 0;
+                                    d.extend_from_slice(&session);
+                                }
+                                d.extend_from_slice(self.st.challenge_text.as_bytes());
+                                d.push(0);
+                            }
+                        }
+                        cx.udp_send(from, d);
+                    }
                     Outcome::Valid => {
                         let mut d = vec![9];
                         d.extend_from_slice(&session);
@@ -861,7 +892,23 @@ impl Server for Gs3Server {
                 self.data_requests += 1;
                 match self.data_outcomes.get(n).copied().unwrap_or(Outcome::Valid) {
                     Outcome::Silent => {}
-                    Outcome::Malformed => cx.udp_send(from, vec![0, session[0], session[1]]),
+                    Outcome::Malformed => {
+                        match cx.draw(3) {
+                            0 => cx.udp_send(from, vec![0, session[0], session[1]]),
+                            v => {
+                                // the complete valid reply, but for another session / of the handshake kind
+                                let foreign = if v == 1 { [session[0], session[1], session[2] ^ 0x21, session[3]] } else { session };
+                                let mut d = self.datagrams(foreign);
+                                if v == 2 {
+                                    for p in &mut d {
+                                        p[0] = 9;
+                                    }
+                                }
+                                d.truncate(1);
+                                cx.udp_send(from, d.remove(0));
+                            }
+                        }
+                    }
                     Outcome::Valid => {
                         let d = self.datagrams(session);
                         send_ordered(cx, from, &d, &self.order, &self.dup);
